@@ -39,7 +39,8 @@ EXTENDS Wb, Json, SequencesExt
 
 CONSTANTS MaxFeatures        \* most features of a document
 
-VARIABLES sec,      \* index into Sections: the cross section of the document
+VARIABLES dm,       \* index into DepthMethods (spherical worlds): how the dip of a slab segment is referred to the curved surface
+          sec,      \* index into Sections: the cross section of the document
           sph,      \* spherical coordinate system?
           glob,     \* index into Globals
           frame,    \* index into Frames(sph): the frame the moved twin of the document is written against
@@ -47,7 +48,7 @@ VARIABLES sec,      \* index into Sections: the cross section of the document
           cur,      \* the feature under construction, or <<>>
           stage,    \* what the feature under construction still lacks
           done
-vars == <<sec, sph, glob, frame, feats, cur, stage, done>>
+vars == <<dm, sec, sph, glob, frame, feats, cur, stage, done>>
 
 (* frames: Cartesian [sph = FALSE, c, s, n (cos = c/n, sin = s/n), tx, ty (km)]; spherical [sph = TRUE, dlon (degrees)] *)
 IdF(s) == IF s THEN [sph |-> TRUE, dlon |-> 0] ELSE [sph |-> FALSE, c |-> 1, s |-> 0, n |-> 1, tx |-> 0, ty |-> 0]
@@ -158,11 +159,12 @@ Globals == << <<>>,
 
 (* cross sections <<origin (km), direction d with |d| = d[3]>>: Pythagorean directions, origins and steps chosen so that no
    probe along a section falls on a lattice-aligned boundary of the catalogues *)
+DepthMethods == <<"begin segment", "starting point", "begin at end segment">>
 Sections == << <<<<-347, 203>>, <<1, 0, 1>>>>, <<<<103, -301>>, <<3, 4, 5>>>>, <<<<1507, 1003>>, <<-4, -3, 5>>>>, <<<<1203, -207>>, <<-5, 12, 13>>>> >>
 SecEnd(sc) == <<sc[1][1] + 100 * sc[2][1], sc[1][2] + 100 * sc[2][2]>>
 
 (*************************** the machine ************************************)
-Init == /\ sph \in BOOLEAN /\ glob \in 1..Len(Globals) /\ frame \in 1..3 /\ sec \in 1..Len(Sections)
+Init == /\ sph \in BOOLEAN /\ glob \in 1..Len(Globals) /\ frame \in 1..3 /\ sec \in 1..Len(Sections) /\ dm \in 1..Len(DepthMethods)
         /\ feats = <<>> /\ cur = <<>> /\ stage = "none" /\ done = FALSE
 
 (* an abstract feature: type, geometry indices <<g, dip point, segment set>>, depth kind, model indices per kind *)
@@ -171,23 +173,23 @@ Start == /\ stage = "none" /\ ~done /\ Len(feats) < MaxFeatures
          /\ \/ \E t \in {"continental plate", "oceanic plate", "mantle layer"}, g \in 1..Len(Polys) : cur' = New(t, g, 0, 0)
             \/ \E t \in {"subducting plate", "fault"}, g \in 1..Len(Trenches), dp \in 1..Len(DipPoints), sg \in 1..Len(SegSets) : cur' = New(t, g, dp, sg)
             \/ \E g \in 1..Len(PlumeGeoms) : cur' = New("plume", g, 0, 0)
-         /\ stage' = "depths" /\ UNCHANGED <<sec, sph, glob, frame, feats, done>>
+         /\ stage' = "depths" /\ UNCHANGED <<dm, sec, sph, glob, frame, feats, done>>
 (* depth range: value-at-points surfaces only for area features (they are built from the polygon) *)
 HasPoints(k) == DepthKinds[k][1] = AtPoints \/ DepthKinds[k][2] = AtPoints
 Depths == /\ stage = "depths"
           /\ \E k \in 1..Len(DepthKinds) : (HasPoints(k) => IsArea(cur.type)) /\ cur' = [cur EXCEPT !.dk = k]
-          /\ stage' = "models" /\ UNCHANGED <<sec, sph, glob, frame, feats, done>>
+          /\ stage' = "models" /\ UNCHANGED <<dm, sec, sph, glob, frame, feats, done>>
 AddModel(key, n) == /\ stage = "models" /\ Len(cur[key]) < 2
                     /\ \E k \in 1..n : cur' = [cur EXCEPT ![key] = Append(@, k)]
-                    /\ UNCHANGED <<sec, sph, glob, frame, feats, stage, done>>
+                    /\ UNCHANGED <<dm, sec, sph, glob, frame, feats, stage, done>>
 AddT == AddModel("tm", Len(TModels(IdF(sph), cur.type)))
 AddC == AddModel("cm", Len(CModels(IdF(sph), cur.type)))
 AddG == AddModel("gm", Len(GModels(IdF(sph), cur.type)))
 AddV == AddModel("vm", Len(VModels(IdF(sph), cur.type)))
 Close == /\ stage = "models"
          /\ feats' = Append(feats, cur) /\ cur' = <<>> /\ stage' = "none"
-         /\ UNCHANGED <<sec, sph, glob, frame, done>>
-Finish == /\ stage = "none" /\ Len(feats) >= 1 /\ ~done /\ done' = TRUE /\ UNCHANGED <<sec, sph, glob, frame, feats, cur, stage>>
+         /\ UNCHANGED <<dm, sec, sph, glob, frame, done>>
+Finish == /\ stage = "none" /\ Len(feats) >= 1 /\ ~done /\ done' = TRUE /\ UNCHANGED <<dm, sec, sph, glob, frame, feats, cur, stage>>
 Next == Start \/ Depths \/ AddT \/ AddC \/ AddG \/ AddV \/ Close \/ Finish
 
 (*************************** rendering against a frame **********************)
@@ -209,7 +211,7 @@ Render(f, a, k) ==
 (*************************** the document and the probes ********************)
 HM == 1000 * Km
 RE == 6371000
-DocF(f) == World(IF sph THEN Spherical("begin segment") ELSE Cartesian, [k \in 1..Len(feats) |-> Render(f, feats[k], k)]) @@ Globals[glob]
+DocF(f) == World(IF sph THEN Spherical(DepthMethods[dm]) ELSE Cartesian, [k \in 1..Len(feats) |-> Render(f, feats[k], k)]) @@ Globals[glob]
            @@ ("cross section" :> <<XYg(f, Sections[sec][1]), XYg(f, SecEnd(Sections[sec]))>>)
 Doc == DocF(IdF(sph))
 
@@ -224,7 +226,7 @@ Rows == LET ps == SetToSeq(LatticeKm) IN
 AllProps == <<PT, PC(0), PC(1), PG(0, 2), PC(3), PTag, PV, PC(4), PC(5), PG(2, 1), PC(2)>>
 
 Shape == [k \in 1..Len(feats) |-> feats[k].type]
-Id(kind) == <<"gen", kind, sph, glob, frame, feats, sec>>
+Id(kind) == <<"gen", kind, sph, glob, frame, feats, sec, dm>>
 Labels(kind) == <<"gen", kind, IF sph THEN "spherical" ELSE "cartesian">>
 (* C13: every answer finite (the replay runs under the sanitizers and judges only that) *)
 FiniteB == [id |-> Id("finite"), labels |-> Labels("finite"),
